@@ -11,6 +11,7 @@ pub mod handles;
 pub mod index;
 pub mod l2checks;
 pub mod lifecycle;
+pub mod vector;
 
 pub fn all() -> Vec<&'static dyn Check> {
     let mut v: Vec<&'static dyn Check> = Vec::new();
@@ -22,6 +23,7 @@ pub fn all() -> Vec<&'static dyn Check> {
     v.extend(l2checks::checks());
     v.extend(clock::checks());
     v.extend(index::checks());
+    v.extend(vector::checks());
     v.extend(faults::checks());
     v
 }
